@@ -104,6 +104,9 @@ func show(p *node) string {
 	if p == nil {
 		return "nil"
 	}
+	if p.Declared {
+		return p.String() + " (handed over as unqualified names with xmlns attributes)"
+	}
 	return p.String()
 }
 
